@@ -219,6 +219,17 @@ public:
         // Scale matrix prior to the Schur decomposition
         const Scalar scale = mat.cwiseAbs().maxCoeff();
 
+        // A zero matrix cannot be scaled: its eigenvalues are all zero,
+        // and the identity matrix gives the eigenvectors
+        if (scale == Scalar(0))
+        {
+            m_matT = Matrix::Zero(m_n, m_n);
+            m_eivec = Matrix::Identity(m_n, m_n);
+            m_eivalues = ComplexVector::Zero(m_n);
+            m_computed = true;
+            return;
+        }
+
         // Reduce to real Schur form
         m_schur.compute(mat / scale);
         m_schur.swap_T(m_matT);
